@@ -33,6 +33,8 @@ func runC11(c *core.Ctx) {
 		RunSparseMatrix(c)
 	case "sparse-const-vector":
 		RunSparseConst(c)
+	case "iterator-clones":
+		RunIteratorClones(c)
 	default:
 		panic("unknown scenario " + c.Scenario)
 	}
@@ -87,6 +89,7 @@ func init() {
 			{Name: "sparse-vector", Weight: 1},
 			{Name: "sparse-matrix", Weight: 1},
 			{Name: "sparse-const-vector", Weight: 1},
+			{Name: "iterator-clones", Weight: 1},
 		},
 		Run:      runC11,
 		StepUnit: "operations by handles (container, live iterators, slices) on one sparse container",
